@@ -164,8 +164,8 @@ func worldFinish(run *h.Run) {
 	}
 }
 
-func ev(k, a string) w.Event             { return w.Event{K: k, A: a} }
-func evb(k, a, b string) w.Event         { return w.Event{K: k, A: a, B: b} }
+func ev(k, a string) w.Event     { return w.Event{K: k, A: a} }
+func evb(k, a, b string) w.Event { return w.Event{K: k, A: a, B: b} }
 
 // runWorld explores the scenarios with the monitors; stops at the first scenario with an unlisted violation.
 func runWorld(t *testing.T, run *h.Run, scs []scOpt, mons []func(*w.MonCtx), maxStates int, visit ...func(sc *w.Scenario, s *w.State, depth int)) {
